@@ -151,3 +151,38 @@ def many_chunk_cases(etl, rng, ctx, prefix, thorough=False):
                             break
                 finally:
                     config.sort_buffersize = saved
+
+
+def view_operand_cases(etl, rng, ctx, ops, ncases, header=('x', 'xy', 'v'), pools=None):
+    """Operands that are themselves sort views (ascending / descending, by the key, by another field whose name starts
+    with the key's, by no key, cached or not) must be treated like the tables they stand for:
+    op(view) delivers what op(list(view)) delivers.  `ops`: (name, arity, call(*tables)).  No model involved."""
+    from . import gen
+    hdr = list(header)
+    pools = pools or [[1, 2, 3, None], ['a', 'b', 'ab', None], [0, 1, 5]]
+    for ci in range(ncases):
+        tabs = []
+        for _ in range(2):
+            n = rng.choice([0, 1, 2, 3, 4, 5])
+            tabs.append([hdr] + [[rng.choice(pools[j]) for j in range(len(hdr))] for _ in range(n)])
+        name, arity, call = ops[ci % len(ops)]
+        pos = rng.randrange(arity)
+        key = rng.choice([hdr[0], hdr[1], tuple(hdr[:2]), None, hdr[2]])
+        rev = rng.random() < 0.6
+        kw = rng.choice([{}, {'buffersize': 2}, {'cache': False}])
+        try:
+            view = etl.sort(tabs[pos], key, reverse=rev, **kw)
+            mat = [tuple(r) for r in view]
+        except Exception:   # noqa
+            continue
+        operands_v = [view if i == pos else tabs[i] for i in range(arity)]
+        operands_m = [mat if i == pos else tabs[i] for i in range(arity)]
+        got = run_show(lambda: call(*operands_v))
+        want = run_show(lambda: call(*operands_m))
+        ctx.case(('view-operand', name, repr(tabs[:arity]), pos, repr(key), rev))
+        ctx.count('view-operand')
+        if got != want:
+            ctx.spec_fail('%s|sort-view-operand' % name,
+                          '%s treats an operand that is a sort view differently from the table the view stands for' % name,
+                          {'op': name, 'tables': repr(tabs[:arity]), 'operand': pos, 'presented as': 'sort(%r, reverse=%r, %r)' % (key, rev, kw),
+                           'with the view': got, 'with the materialised view': want})
